@@ -11,10 +11,11 @@ import Driver.OpsIndep
 import Driver.OpsPC
 import Driver.OpsDBN
 import Driver.OpsCI
+import Driver.OpsGauss
 open Lean PgmVerif PgmVerif.Drv
 
 def handlers : List (String → Json → Option (Except String Json)) :=
-  [handleFactor, handleCPD, handleGraph, handleHistory, handleLearn, handleScore, handleSearch, handleJT, handleIndep, handlePC, handleDBN, handleCI]
+  [handleFactor, handleCPD, handleGraph, handleHistory, handleLearn, handleScore, handleSearch, handleJT, handleIndep, handlePC, handleDBN, handleCI, handleGauss]
 
 def handle (op : String) (j : Json) : Except String Json :=
   match handlers.findSome? (fun h => h op j) with
